@@ -25,7 +25,8 @@ type c15Case struct {
 	W       int      `json:"w"`
 	H       int      `json:"h"`
 	Layout  int      `json:"layout"` // 0 default, 1 reverse, 2 reverse-list
-	Info    int      `json:"info"`   // 0 default, 1 inline, 2 hidden
+	Info    int      `json:"info"`   // 0 default, 1 inline, 2 hidden, 3 inline-right
+	Prompt  string   `json:"prompt,omitempty"` // --prompt ("" = default "> ")
 	Sep     bool     `json:"sep"`
 	Header  []string `json:"header"`
 	HLines  int      `json:"hlines"`
@@ -37,13 +38,16 @@ type c15Case struct {
 }
 
 var c15Layouts = []string{"default", "reverse", "reverse-list"}
-var c15Infos = []string{"default", "inline", "hidden"}
+var c15Infos = []string{"default", "inline", "hidden", "inline-right"}
 
 func (cs *c15Case) args() []string {
 	a := []string{"--no-unicode", "--no-color", "--no-scrollbar", "--no-mouse",
 		"--layout=" + c15Layouts[cs.Layout], "--info=" + c15Infos[cs.Info]}
 	if !cs.HScroll {
 		a = append(a, "--no-hscroll")
+	}
+	if cs.Prompt != "" {
+		a = append(a, "--prompt="+cs.Prompt)
 	}
 	if !cs.Sep {
 		a = append(a, "--no-separator")
@@ -80,7 +84,7 @@ func (cs *c15Case) cfgVal() Val {
 }
 
 func (cs *c15Case) promptLines() int {
-	if cs.Info == 1 || (cs.Info == 2 && !cs.Sep) {
+	if cs.Info == 1 || (cs.Info >= 2 && !cs.Sep) {
 		return 1
 	}
 	return 2
@@ -89,7 +93,7 @@ func (cs *c15Case) maxItems() int {
 	return max(cs.H-len(cs.Header)-cs.HLines-cs.promptLines(), 0)
 }
 
-func c15View(st *FzfState, cy, off int) Val {
+func c15View(st *FzfState, cy, off int, prompt string) Val {
 	ms := make([]Val, len(st.Matches))
 	for i, m := range st.Matches {
 		ms[i] = L(I(m.Index), runesVal(m.Text))
@@ -98,7 +102,7 @@ func c15View(st *FzfState, cy, off int) Val {
 	for i, m := range st.Selected {
 		sel[i] = I(m.Index)
 	}
-	return L(runesVal(st.Query), L(ms...), I(st.TotalCount), I(cy), I(off), L(sel...))
+	return L(runesVal(st.Query), L(ms...), I(st.TotalCount), I(cy), I(off), L(sel...), runesVal(prompt))
 }
 
 func valRows(v Val) []string {
@@ -125,6 +129,8 @@ func c15Clause(code int) string {
 		return "faithful.prompt_row"
 	case code == 3:
 		return "faithful.info_row"
+	case code == 4:
+		return "info_visible(the matched/total counter is on the row the info style dictates)"
 	case code >= 100 && code < 1000:
 		return fmt.Sprintf("rows_faithful/pointer_marker_exact(slot %d)", code-100)
 	case code >= 1000 && code < 2000:
@@ -193,6 +199,16 @@ func c15Query(q string, actions string) string {
 	return q
 }
 
+// the prompt string after an action list (change-prompt)
+func c15Prompt(p string, actions string) string {
+	for _, a := range strings.Split(actions, "+") {
+		if strings.HasPrefix(a, "change-prompt(") && strings.HasSuffix(a, ")") {
+			p = a[14 : len(a)-1]
+		}
+	}
+	return p
+}
+
 type c15Failure struct {
 	Step   int
 	Kind   string
@@ -218,6 +234,10 @@ func c15RunOnce(c *Ctx, cs *c15Case, count bool, timeout time.Duration) (*c15Fai
 	total := len(cs.Lines) - cs.HLines
 	off := 0
 	query := ""
+	prompt := cs.Prompt
+	if prompt == "" {
+		prompt = "> "
+	}
 	type hist struct {
 		view Val // [query, matches, total, cy(raw), sel]
 		rows []string
@@ -234,6 +254,7 @@ func c15RunOnce(c *Ctx, cs *c15Case, count bool, timeout time.Duration) (*c15Fai
 				return nil, steps, fmt.Errorf("post %q: %v", act, err)
 			}
 			query = c15Query(query, act)
+			prompt = c15Prompt(prompt, act)
 		}
 		want := -1
 		if !cs.Unicode {
@@ -266,7 +287,7 @@ func c15RunOnce(c *Ctx, cs *c15Case, count bool, timeout time.Duration) (*c15Fai
 				return
 			}
 			cy, noff = int(co.L[0].I), int(co.L[1].I)
-			view = c15View(st, cy, noff)
+			view = c15View(st, cy, noff, prompt)
 			if !cs.Unicode {
 				wantRows = valRows(c.Model.Call(1502, L(cfg, view)))
 			}
@@ -394,7 +415,7 @@ func c15RunOnce(c *Ctx, cs *c15Case, count bool, timeout time.Duration) (*c15Fai
 				}
 			}
 			ms := view.L[1]
-			history = append(history, hist{view: L(view.L[0], ms, view.L[2], I(pos), view.L[5], L(B(true), B(true), B(false), B(true), B(false))), rows: rows})
+			history = append(history, hist{view: L(view.L[0], ms, view.L[2], I(pos), view.L[5], L(B(true), B(true), B(false), B(true), B(false)), view.L[6]), rows: rows})
 		}
 		off = noff
 		if count {
@@ -405,7 +426,7 @@ func c15RunOnce(c *Ctx, cs *c15Case, count bool, timeout time.Duration) (*c15Fai
 	// the incremental-redraw machine on the whole history
 	if !cs.Unicode && len(history) > 0 {
 		h0 := history[0].view
-		v0 := L(h0.L[0], h0.L[1], h0.L[2], h0.L[3], I(0), h0.L[4])
+		v0 := L(h0.L[0], h0.L[1], h0.L[2], h0.L[3], I(0), h0.L[4], h0.L[6])
 		us := []Val{}
 		for _, h := range history[1:] {
 			us = append(us, h.view)
@@ -442,7 +463,7 @@ func c15StateBrief(st *FzfState, cy, off int) map[string]interface{} {
 // Accept only: the single failing clause is the info (or inline prompt) row, the expected text is a proper
 // prefix of what is shown, the separator is on and the shown text reaches the end of the usable width.
 func c15KnownInfoStale(cs *c15Case, bad []int, rows, want []string, st *FzfState) string {
-	if !cs.Sep || len(bad) != 1 || cs.Info == 2 || want == nil {
+	if !cs.Sep || len(bad) != 1 || cs.Info >= 2 || want == nil {
 		return ""
 	}
 	if (cs.Info == 0 && bad[0] != 3) || (cs.Info == 1 && bad[0] != 2) {
@@ -528,7 +549,7 @@ func c15Gen(c *Ctx, r *RNG, uni bool) *c15Case {
 		}
 	}
 	cs.Layout = r.Intn(3)
-	cs.Info = r.Intn(3)
+	cs.Info = r.Intn(4)
 	if cs.Info == 1 && cs.W < 16 { // the inline prefix " < " is cut in narrower windows: outside the model
 		cs.Info = Pick(r, []int{0, 2})
 	}
@@ -569,10 +590,18 @@ func c15Gen(c *Ctx, r *RNG, uni bool) *c15Case {
 	}
 	typing := !uni && r.Chance(2, 3)
 	cs.HScroll = !typing && r.Chance(1, 2)
+	prompts := []string{"> ", "Q: ", "$ ", ">>> ", "p>"}
+	plen := 2
+	if cs.W >= 12 {
+		plen = 4 // change-prompt may install any of the prompts above
+		if r.Chance(1, 3) {
+			cs.Prompt = Pick(r, prompts)
+		}
+	}
 	// narrow windows: keep the query inside the prompt row (and the inline info on it)
-	maxq := min(5, cs.W-4)
+	maxq := min(5, cs.W-plen-2)
 	if cs.Info == 1 {
-		maxq = min(maxq, cs.W-20)
+		maxq = min(maxq, cs.W-18-plen)
 	}
 	if maxq <= 0 {
 		typing = false
@@ -582,14 +611,17 @@ func c15Gen(c *Ctx, r *RNG, uni bool) *c15Case {
 		na = r.Range(5, 60)
 	}
 	q := ""
+	atEnd := true // the cursor is at the end of the query (typed characters go where the cursor is)
 	move := []string{"up", "down", "up", "down", "page-up", "page-down", "half-page-up", "half-page-down", "first", "last"}
 	selA := []string{"toggle", "toggle+down", "toggle+up", "toggle+down", "select-all", "deselect-all", "toggle-all", "select", "deselect", "clear-selection", "toggle+down+toggle+down"}
 	letters := []string{"a", "b", "e", "1", "0", "k", "_", "."}
+	// actions that repaint only the prompt line: cursor motion inside a non-empty query, change-prompt
+	cursor := []string{"backward-char", "backward-char", "forward-char", "beginning-of-line", "end-of-line", "backward-word", "forward-word"}
 	for i := 0; i < na; i++ {
 		var a string
-		k := r.Intn(10)
+		k := r.Intn(12)
 		switch {
-		case k < 5:
+		case k < 4:
 			a = Pick(r, move)
 			if r.Chance(1, 4) {
 				// first/last/pos run constrain() inside the action, so they may only END an action list:
@@ -597,11 +629,11 @@ func c15Gen(c *Ctx, r *RNG, uni bool) *c15Case {
 				// track the offset with one constrain per step
 				a = Pick(r, move[:8]) + "+" + a
 			}
-		case k == 5:
+		case k == 4:
 			a = "pos(" + strconv.Itoa(r.Range(-nl-2, nl+2)) + ")"
-		case k < 8 && cs.Multi != 0:
+		case k < 7 && cs.Multi != 0:
 			a = Pick(r, selA)
-		case typing:
+		case k < 9 && typing:
 			switch r.Intn(6) {
 			case 0, 1, 2:
 				if len(q) < maxq {
@@ -614,9 +646,24 @@ func c15Gen(c *Ctx, r *RNG, uni bool) *c15Case {
 			case 4:
 				a = "clear-query"
 			default:
-				a = "change-query(" + Pick(r, letters) + ")"
+				a = "change-query(" + Pick(r, letters) + Pick(r, []string{"", "", "1", ".a", "_1"}) + ")"
+				if len(c15Query(q, a)) > maxq {
+					a = "clear-query"
+				}
 			}
+			if !atEnd && (strings.HasPrefix(a, "put(") || a == "backward-delete-char") {
+				a = "end-of-line+" + a
+			}
+			atEnd = true
 			q = c15Query(q, a)
+		case k < 11 && typing && q != "" && r.Chance(3, 4):
+			a = Pick(r, cursor)
+			if r.Chance(1, 5) {
+				a += "+" + Pick(r, cursor)
+			}
+			atEnd = false
+		case k < 11 && cs.W >= 12:
+			a = "change-prompt(" + Pick(r, prompts) + ")"
 		default:
 			a = Pick(r, move)
 		}
